@@ -47,11 +47,11 @@ ADD = {
  "C01": " Round 6: a position battery on steered queues of 4 094-131 072 elements (operations aimed at level boundaries, the last parent and its lone child; raw anomalies are turned into witnesses by grow-and-drain), neutral operations before and between the steps of the huge-queue scripts, size hints that fall short by the number of clashes, targets biased to the ends of the heap vector and of the slot order.",
  "C02": " Round 6: the position battery and the neutral operations of C01 on the min-max heap.",
  "C03": " Round 6: change_priority is judged on which of two equal priority objects (a stamp ignored by Ord/Eq) it returns and stores, as push already was.",
- "C05": " Round 6: one case in fifty is a long script on 1 023-32 769 elements (thorough 262 145) with a history (construction by pushes, neutral operations, partial iter_mut, append, extend, retain, clone, clear, refill, full drains) in which every public call is bounded.",
+ "C05": " Round 8: append into a near-empty receiver that has a big queue's room. Round 6: one case in fifty is a long script on 1 023-32 769 elements (thorough 262 145) with a history (construction by pushes, neutral operations, partial iter_mut, append, extend, retain, clone, clear, refill, full drains) in which every public call is bounded.",
  "C06": " Round 6: a sorted-fill sweep (queues filled in descending / ascending / all-equal / run-descending order, every size up to 130 and a sparse set up to 1 100, nine late disturbances near the bottom of the heap, then every form of sorted consumption).",
  "C07": " Round 6: 16 hint modes, incl. lower bounds that fall short by a few and bounds equal to the number of pairs that make the receiver grow.",
  "C11": " Round 6: the position battery of C01/C02 with push_increase / push_decrease on queues of 4 094-131 072 elements.",
- "C14": " Round 6: a near miss replaced in place (same index tables, same length, same first and last slots as the source).",
+ "C14": " Round 8: routes draw from all hasher kinds (== across degenerate and specialised hasher states). Round 6: a near miss replaced in place (same index tables, same length, same first and last slots as the source).",
  "C17": " Round 6: a capacity battery of 7 amounts from 65 537 to 8 388 608 elements through every capacity-taking constructor and every reservation call.",
  "C04": " Round 6/7: operations carried out by a cleanup handler while an unrelated panic unwinds (std::thread::panicking() is true); a drop-glue battery (no value dropped twice under item / priority types with and without drop glue).",
  "C08": " Round 6/7: references taken one at a time from iter_mut (nth, nth_back, rev().nth, find, rfind, a lone next_back) and written while the iterator is alive; operations inside a cleanup handler during an unrelated unwinding; the retain predicate of the huge-queue scripts has a memory and a call log.",
@@ -59,7 +59,7 @@ ADD = {
  "C10": " Round 7: one case in 6 000 pads the queue to 65 536-262 145 elements and sweeps the Ord::cmp crash points of the deep part of the sift path.",
  "C13": " Round 7: every non-mutable iterator of queues of 65 535-131 073 elements walked completely from both ends with len()/size_hint() probed around 2^16.",
  "C16": " Round 7: drop accounting of clear / drain under item and priority types with and without drop glue; clear / drain with 65 537-4 194 309 elements of capacity behind a handful of elements.",
- "C18": " Round 6: a sixth configuration, a BuildHasher whose hash_one is specialised differently from its streaming path (as ahash does).",
+ "C18": " Round 8: an item-shape battery (the same scripted history under five hashers for item types of 1 to 80 bytes, String, Box); the eq probe compares with the same content held under a partner hasher. Round 6: a sixth configuration, a BuildHasher whose hash_one is specialised differently from its streaming path (as ahash does).",
 }
 P = {k: (v[0], v[1] + ADD.get(k, ""), v[2]) for k, v in P.items()}
 checks = []
@@ -88,7 +88,7 @@ m = {
  "engines": [{"name": "pqv", "path": "/verif/harness", "serves_properties": sorted(P.keys()), "kind_free_text": "Rust harness: proptest-driven case generation, interpreter with reference model and oracles, 16 journalled worker processes driven by /verif/check (python3)"}],
  "checks": checks,
  "not_applicable": [{"property_id": k, "reason": v} for k, v in sorted(NOT_YET.items())],
- "notes": "VERIF_SEED and VERIF_TIER are honoured. Exit 0 held / 1 VIOLATION / 2 inconclusive. known_findings.jsonl lists the seven repaired defects (status fixed) and the recorded one (status known, F7: C08/C01/C02 print KNOWN-FINDING and exit 0). seeded/ holds 107 confirmed seeded changes with the output of the owning check, negative/ 30 behaviour-preserving changes on which every check must stay silent; tools/sandbox.sh runs checks against a patched scratch copy.",
+ "notes": "VERIF_SEED and VERIF_TIER are honoured. Exit 0 held / 1 VIOLATION / 2 inconclusive. known_findings.jsonl lists the seven repaired defects (status fixed) and the recorded one (status known, F7: C08/C01/C02 print KNOWN-FINDING and exit 0). seeded/ holds 179 confirmed seeded changes (rounds 1-8) with the output of the owning check, negative/ 30 behaviour-preserving changes on which every check must stay silent; tools/sandbox.sh runs checks against a patched scratch copy.",
 }
 json.dump(m, open("/verif/MANIFEST.json", "w"), indent=1)
 print("wrote MANIFEST.json with", len(checks), "checks")
